@@ -157,6 +157,29 @@ func c02ISN[E algebra.PrimeGroupElement[E, S], S algebra.PrimeFieldElement[S]](e
 		return
 	}
 	env.Reach("dealt")
+	// linearity: the sum of two dealings (independent symbolic randomness — the paths on which pieces
+	// cancel are explored like any other) is a sharing of the sum of the secrets for every qualified set
+	secret2 := env.Scalar("secret2")
+	out2, err := scheme.Deal(isn.NewSecret(secret2), env.Reader("dealer2"))
+	if env.Check("C02.isn/second-deal-ok", err == nil, fmt.Sprint(err)) {
+		for _, A := range minimalQualified(as, pol.IDs) {
+			var sum []*isn.Share[S]
+			for _, id := range A {
+				s1, ok1 := out.Shares().Get(id)
+				s2, ok2 := out2.Shares().Get(id)
+				if ok1 && ok2 {
+					sum = append(sum, s1.Op(s2))
+				}
+			}
+			if len(sum) != len(A) {
+				continue
+			}
+			rec, err := scheme.Reconstruct(sum...)
+			if env.Check("C02.isn/the sum of two sharings reconstructs (every path, including cancelling pieces)", err == nil, fmt.Sprintf("%s: %v", setName(A), err)) {
+				env.Valid("C02.isn/add-shares=add-secrets", env.EqF(rec.Value(), secret.Add(secret2)))
+			}
+		}
+	}
 	for _, A := range subsetsOf(pol.IDs) {
 		var sh []*isn.Share[S]
 		for _, id := range A {
